@@ -93,10 +93,10 @@ async def _no_yield(kind, key):
 
 
 def env_for(tt, assign, fc=None):
-    """some requirement keys (mc.impl.is_sync_key) are answered by SYNCHRONOUS evaluate methods, the others by coroutine methods
+    """some requirement keys (mc.impl.sync_subset: every second key of the expression) are answered by SYNCHRONOUS evaluate methods, the others by coroutine methods
     (that never suspend): user evaluators may mix both kinds"""
     hints = {k: f"Hinweis {k}" for k in R3.keys_of(tt, "hint")}
-    sync = {("rc", k) for k in assign if I.is_sync_key("rc", k)} | {("fc", k) for k in (fc or {}) if I.is_sync_key("fc", k)}
+    sync = {("rc", k) for k in I.sync_subset(assign)} | {("fc", k) for k in I.sync_subset(fc or {})}
     return I.Env(rc=dict(assign), fc=fc or {}, hints=hints, yielder=_no_yield, sync=sync)
 
 
